@@ -24,6 +24,8 @@ func checkC02(p *Prog, r *Report) {
 	nmoveSweeps(p, r, "C02.R10")
 	c02Inputs(p, r, "C02.R11")
 	parallelArrays(p, r, "C02.R14")
+	// an irrigation event lost to a header skip is N that the file supplies and the soil never receives (shared with C10.R13)
+	headerLineCounts(p, r, "C02.R15")
 	uptakeReset(p, r, "C02.R12")
 	denitrBalance(p, r, "C02.R13")
 }
